@@ -148,6 +148,22 @@ def evalVars (st : Stack) : List (Str × Expr) → Obj → Res Obj
     | some v => evalVars st r (objInsert acc k v)
     | none => .err
 
+/-- `CaseOption::evaluate`: some `when` value equals the target (`v == target`, in that order). -/
+def anyEqArgs (st : Stack) (value : V) : List Expr → Res Bool
+  | [] => .ok false
+  | a :: as => match a.eval st with
+    | .ok v => if valueEq v value then .ok true else anyEqArgs st value as
+    | .err => .err | .io => .io | .panic s => .panic s | .fuel => .fuel
+
+/-- the first `when` arm that matches, if any -/
+def casePick (st : Stack) (value : V) : List (List Expr × List Node) → Res (Option (List Node))
+  | [] => .ok none
+  | (args, body) :: r =>
+    match anyEqArgs st value args with
+    | .ok true => .ok (some body)
+    | .ok false => casePick st value r
+    | .err => .err | .io => .io | .panic s => .panic s | .fuel => .fuel
+
 def Rt.setLayers (rt : Rt) (ls : Stack) : Rt := { rt with layers := ls }
 def Rt.pop (rt : Rt) : Rt := { rt with layers := rt.layers.tail }
 def Rt.push (rt : Rt) (l : Layer) : Rt := { rt with layers := l :: rt.layers }
@@ -272,19 +288,7 @@ def renderN (fuel : Nat) (env : Env) (n : Node) (rt : Rt) (w : W) : RR :=
   | .case_ target arms els =>
     (match target.eval rt.layers with
      | .ok value =>
-       let rec pick : List (List Expr × List Node) → Res (Option (List Node))
-         | [] => .ok none
-         | (args, body) :: r =>
-           let rec anyEq : List Expr → Res Bool
-             | [] => .ok false
-             | a :: as => match a.eval rt.layers with
-               | .ok v => if valueEq v value then .ok true else anyEq as
-               | .err => .err | .io => .io | .panic s => .panic s | .fuel => .fuel
-           match anyEq args with
-           | .ok true => .ok (some body)
-           | .ok false => pick r
-           | .err => .err | .io => .io | .panic s => .panic s | .fuel => .fuel
-       (match pick arms with
+       (match casePick rt.layers value arms with
         | .ok (some body) => renderList (renderN fuel env) body rt w
         | .ok none => (match els with
             | some t => renderList (renderN fuel env) t rt w
